@@ -242,7 +242,8 @@ def run_shard(spec, acc, ctx):
     first = True
     for cid, cfg, cls, db, info in sse.iter_cases(spec, ctx, scales=[6, 16, 40],
                                                   classes=["tiny", "block-edge", "pow2-edge", "zipf", "one-heavy",
-                                                           "zero-bytes"]):
+                                                           "zero-bytes", "array-edge"],
+                                                  rare_classes=("array-edge",)):
         if run_case(scheme, cid, cfg, cls, db, acc, ctx.rng):
             acc.add("distinct", sse.case_fp(scheme, cid, db))
         if first:
